@@ -82,7 +82,15 @@ def with_defaults_trimmed(config: _T, remove_deep_defaults: bool = False) -> _T:
     key = (type(buildable), id(fn_or_cls))
     if key in cached_deep_defaults:
       return cached_deep_defaults[key]
-    result = type(buildable)(fn_or_cls)  # pytype: disable=not-instantiable
+    # An argument-free Buildable of the same type and callable. It is created by
+    # `__unflatten__`, as the constructor of a Buildable subclass does not
+    # necessarily take the callable (e.g. `DictConfig`, `NamespaceConfig`).
+    result = type(buildable).__unflatten__(
+        (),
+        config_lib.BuildableTraverserMetadata(
+            fn_or_cls=fn_or_cls, argument_names=(), argument_tags={}
+        ),
+    )
     cached_deep_defaults[key] = result
     return result
 
